@@ -9,7 +9,8 @@ SRC_FACTS = ["crypt_fn_secret", "crypt_key_ciphertext", "crypt_new_key", "marsha
              "envelope_magic", "envelope_version", "envelope_min_len"]
 COQ_SAMPLE = 60
 BATCH = 200
-RULE = ("regression corpus; whitespace family (all texts over {LF, space, tab, x, U+2028, -} up to length 3, thorough 4, "
+RULE = ("regression corpus; spelling family (every YAML spelling of the keys fn::secret / ciphertext and of the text "
+        "scalar: plain, quoted, \\x / \\u escapes, !!str tag, block / flow, one secret per document); whitespace family (all texts over {LF, space, tab, x, U+2028, -} up to length 3, thorough 4, "
         "decrypted into a block slot / encrypted from a quoted scalar); exhaustive small family: every secret text (48: empty, one byte, 123/null/true/~, "
         "leading/trailing spaces, $ / $$ / ${x}, multi-line, non-ASCII, big integers, YAML indicators) x scalar style "
         "(plain, single, double, literal, folded, tagged) x position (top level, nested object, array, provider input, "
@@ -116,6 +117,10 @@ def gen(rng, tier):
                         return G.Map([{"key": G.Sc("fn::secret", "plain"), "val": inner,
                                        "head": None if in_flow else "hc"}], flow=in_flow)
                     add("dec", G.to_text(doc_with(ciph, pos, rng)), key, pad, "family-dec")
+
+    # --- alternative spellings of the keys fn::secret / ciphertext and of the text scalar ---------------------------
+    for form, text in G.spelled_documents(0x6B, 1, thorough):
+        add("enc" if form == "plain" else "dec", text, 0x6B, 1, "spelling-" + form)
 
     # --- non-secret scalars beside a secret: every YAML-special string x style, typed scalars -----------------
     for t in G.STRING_TEXTS:
